@@ -62,6 +62,28 @@ P.update({
  'C19': dict(level='other', ref='DESIGN.md section 3 C19',
    text='Create loop of the REAL writer with 0-3 schemas per list whose match result is a symbolic bit: create() receives the archives/xff/method of the first match, documented defaults otherwise; parseRetentionDef against a reference for 9 digit strings x 10 unit suffixes on both sides; loadStorageSchemas/loadAggregationSchemas on every 3-section file over 6 section kinds: complete sections in file order, default last, incomplete ones ignored without disturbing the others.'),
 })
+ADD = {
+ 'C01': ' Also: python2-style frames on the real C unpickler, the frame length limit boundary, and back-pressure (pause/resume) from inside a segment.',
+ 'C02': ' The store step is also taken with the cache exactly at its hard limit; timestamps include sub-second floats sharing a whole second. Statement-level interleavings of a store with drains are decided by the race harness and replayed on real threads.',
+ 'C03': ' writeForever with one or two backend failures carrying the same message text (each must be reported).',
+ 'C04': ' Plus statement-level preemption of the writer loop (coroutines of writeForever, the cache and the real TokenBucket) by a store or by the shutdown trigger itself, followed by the stop; counterexamples replayed on real threads.',
+ 'C05': ' Also routers after a removal, the aggregation-aware router over overlapping replica sets (symbolic positions per aggregate name), suspended/interleaved look-ups on one ring, and SMT range lemmas for both hash functions.',
+ 'C07': ' Plus outage and recovery through CarbonClientManager with a dynamic router (stand-in buffer re-injected exactly once, in order) and progress to quiescence after symbolic event pairs.',
+ 'C08': ' Plus histories through the real input() with a late datapoint for a kept or just-trimmed interval, and two-field patterns.',
+ 'C09': ' Relay rounds optionally lose and re-establish the connection in the middle of the drain; the cache-side race harness also sends the filling store to the metric being popped.',
+ 'C11': ' Frames up to the configured length limit (garbage or padded valid pickles) never close the connection.',
+ 'C12': ' List-file harnesses judge membership semantically (rules with groups/back-references); sub-second timestamps on every listener path; SMT lemma for the resolution floor.',
+ 'C13': ' The setting is read through conf.read_config with the instance-section overlay; nine opcode routes to a global are run on the real C unpickler.',
+ 'C14': ' Also every path exists() stats or renames, crafted long names, and equality of the mapping across interpreter starts (different string-hash seeds).',
+ 'C15': ' Datapoints enter through sendDatapoint and may be exact repeats of their predecessor (nothing may be merged).',
+ 'C16': ' Patterns include a plain anchored prefix with mixed-case names; aggregation-aware routing is also checked across a reload of the rules file with the real RuleManager.',
+ 'C17': ' Plus max/bucketmax under interleaved drain/store/re-store sequences, an influx of new metric names in the middle of a pass, and completeness of repeated draining after a store/drain race.',
+ 'C18': ' Thirty names violating a documented tag rule (several with a well-formed last tag) must be refused by the parser.',
+ 'C19': ' Plus the writer\'s reload functions after the live config file was replaced (older or newer mtime) in a private CONF_DIR, reload order independence, and real pattern matching (alternations mixing anchored and unanchored branches).',
+ 'C20': ' The writer call sites (one token, acquired first, per create/write) are decided with scripted stub buckets and with real TokenBucket objects in arbitrary fill states; shutdownModifyUpdateSpeed reaches both buckets.',
+}
+for _k, _v in ADD.items():
+  P[_k]['text'] = P[_k]['text'] + _v
 NA_PENDING = 'harness not implemented yet in this round (see DESIGN.md section 3 for the planned solver-based harness)'
 
 
